@@ -221,7 +221,9 @@ def _more():
             for e in ends:
                 op = f"pop_{e}_if"
                 t = tq(n, qmax_of(kind, op, 4, 3, 4), tmax)
-                t2 = tq(n, qmax_of(kind, op, 3, 2, 1), tmax)
+                # (the accepted maximum of a 2- or 3-element min-max heap sits in the LAST slot: the
+                # struct group needs these sizes, seed C04-d)
+                t2 = tq(n, qmax_of(kind, op, 3, 3, 3), tmax)
                 step(op, kind, n, "inv", "or", {op_: t, "C08": t})
                 # (the pair the predicate accepted is the pair returned: C03 as much as C08)
                 step(op, kind, n, "cs", "mo", {"C03": t if n <= 3 else t2, "C08": t})
